@@ -24,7 +24,7 @@ func init() {
 		ID: "C12",
 		Meta: func(tier string) fw.Meta {
 			return fw.Meta{
-				Flavours: []string{"plain", "race", "cover"},
+				Flavours: []string{"plain", "race", "cover", "386"},
 				Blocks:   16,
 				Procs:    16,
 				Rule: "LIS/LNDS: every sequence over alphabet 4 x length <= 8, alphabet 3 x length <= 11 and alphabet 2 x length <= 13 (exhaustive), each under four comparators (natural -1/0/+1, reversed, a 'wide' comparator returning the difference a-b, and one returning MinInt/MaxInt); a structured family of two interleaved ascending runs with run lengths 1..70 and 2^k-1..2^k+1 up to 1024, plus random sequences up to 1500 (5000 thorough) with heavy duplication, and sequences of 32769..131072 elements (length checked against an O(n log n) patience reference); " +
@@ -115,7 +115,7 @@ var c12cmps = []struct {
 		}
 		return 0
 	}},
-	{"wide(a-b)", func(a, b int) int { return a - b }},
+	{"wide(a-b)", func(a, b int) int { return clipInt(int64(a) - int64(b)) }},
 	{"extreme(MinInt/MaxInt)", func(a, b int) int {
 		switch {
 		case a < b:
